@@ -30,3 +30,10 @@ UNITS = [
                     dict(name='_dbus_header_have_message_untrusted', file='dbus/dbus-marshal-header.c', status='replaced', note='by its contract (enforced in C01.have_message)')],
          assumptions=['the stub contracts of load_message and _dbus_header_have_message_untrusted are the ones enforced in C11.F2 / C01.have_message (kept in sync by hand)']),
 ]
+
+UNITS.append(dict(name='C11.loader_queue', props=['C11', 'C05'], kind='P', route='stub', entry='harness',
+     tus=[dict(file='dbus/dbus-message.c', include_as='VERIF_TU')], harness='harness/c11_loaderq.c', timeout=300, expect_s=10,
+     must_have=['ldq.peek', 'ldq.pop', 'ldq.poplink', 'ldq.putback'],
+     functions=[dict(name='_dbus_message_loader_peek_message/_pop_message/_pop_message_link/_putback_message_link', file='dbus/dbus-message.c', status='enforced', contract='the transport sees and takes only the oldest loaded message; an undone pop is the first again'),
+                dict(name='_dbus_list_pop_first(_link)/_prepend_link', file='dbus/dbus-list.c', status='stub', note='which end of the loader queue is used is the obligation')],
+     assumptions=[]))
